@@ -302,6 +302,11 @@ pub struct ACore<const PW: u8, const GAIN: i8, const N: usize = 256> {
 
 impl<const PW: u8, const GAIN: i8, const N: usize> ACore<PW, GAIN, N> {
     pub fn new(cfg: &DevCfg, class_c: bool) -> Self {
+        Self::with_session(cfg, class_c, None)
+    }
+
+    /// As `new`, but an ABP device is constructed around the given session (the async front-end's way of restoring one).
+    pub fn with_session(cfg: &DevCfg, class_c: bool, given: Option<lorawan_device::mac::Session>) -> Self {
         let inner = Rc::new(RefCell::new(AInner {
             log: vec![],
             net: Net::unjoined(),
@@ -329,7 +334,7 @@ impl<const PW: u8, const GAIN: i8, const N: usize> ACore<PW, GAIN, N> {
             if let Some(fd) = cfg.fcnt_down {
                 inner.borrow_mut().net.ref_last = fd;
             }
-            Some(patched_session_cfg(cfg))
+            Some(given.unwrap_or_else(|| patched_session_cfg(cfg)))
         };
         let mut dev: ADev<PW, GAIN, N> = Device::new_with_session(make_region(cfg), ARadio(inner.clone()), ATimer(inner.clone()), rng.clone(), session);
         if class_c {
